@@ -1,8 +1,33 @@
-(* C04 - property theorems (being built; see MonC04.v for the monitor). *)
-From Coercion.Base Require Import Plan.
-From Coercion.Engine Require Import Shape Event Accept.
-From Coercion.C04 Require Import MonC04.
+(* C04 - "Wait returns a terminal, quiescent, consistent and truthful final plan".
 
-Theorem c04_tmp_partial : forall sh, scan sh mstate0 [] = [1].
-Proof. reflexivity. Qed.
-Print Assumptions c04_tmp_partial.
+   The property is the monitor MonC04.mon_final (read MonC04.v: it is the statement).  mon_final =
+   mon_final_core && mon_times; the theorems below are about mon_final_core (every clause except the
+   start/end TIME flags: the automaton of coq/engine carries no clock - its events have no time stamps -
+   so start<=end is evaluated on the real engine only, by mon_times on every trace).
+
+   For EVERY shape and EVERY trace the observable automaton accepts from the initial state (all plans,
+   all plugin outcomes, all interleavings the engine's concurrency structure admits, no bound):      *)
+From Coercion.Base Require Import Plan.
+From Coercion.Engine Require Import Shape Event PlanSM Auto Accept.
+From Coercion.C04 Require Import MonC04 C04Proofs.
+
+(* a trace accepted up to and including the return of Wait satisfies every clause evaluated at the release:
+   plan Completed|Failed, nothing Running, no plugin executing (overrun-cancelled invocations apart), the
+   consistency clauses of plan / sequences / actions, every action's status, attempt count and last verdict
+   equal to what the trace shows ran, the reason = the first stage the trace shows failing and FRUnknown
+   exactly when Completed, and the engine's last plan write = what Wait returned *)
+Theorem c04_final_consistent :
+  forall (sh : shape) (tr : list event) (fin : image) (s : st),
+    run sh init (tr ++ [EvRelease fin]) = Some s ->
+    mon_final_core (sh, tr ++ [EvRelease fin]) = true.
+Proof. exact c04_final_consistent. Qed.
+Print Assumptions c04_final_consistent.
+
+(* ... and whatever the automaton accepts AFTER the release keeps the monitor true: nothing but re-reads
+   that equal the released plan and the owed Ends of overrun-cancelled invocations ("never changes
+   afterwards", "no plugin is still executing") *)
+Theorem c04_final_released :
+  forall (sh : shape) (tr : list event) (s : st),
+    run sh init tr = Some s -> released s = true -> mon_final_core (sh, tr) = true.
+Proof. exact c04_final_released. Qed.
+Print Assumptions c04_final_released.
